@@ -21,11 +21,15 @@ CfgJson == [n |-> N, auth |-> Cfg.auth, bal |-> [m \in 1..N |-> Cfg.bal[m]], thr
             tp |-> Cfg.tp, queue |-> Cfg.queue, E |-> Cfg.E, Per |-> Cfg.per, gal |-> Gal]
 
 SInit == Init /\ hist = <<>>
+\* TLC's simulator builds every successor before it picks one; the choices of a Pack are therefore drawn with
+\* RandomElement (a handful of draws per step) instead of being enumerated
 SPack ==
   /\ Cardinality(DOMAIN blocks) < MaxLive
-  /\ \E par \in DOMAIN blocks :
-       /\ blocks[par].num < MaxNum
-       /\ \E p \in Masters, now \in 1..MaxNow, txs \in Bags(blocks[par].w), cord \in Ords :
+  /\ \E i \in 1..4 :           \* bound variables (not LET definitions) so that every draw is made once
+       \E par \in {RandomElement(DOMAIN blocks)}, p \in {RandomElement(Masters)}, now \in {RandomElement(1..MaxNow)},
+          cord \in {RandomElement(Ords)} :
+         \E txs \in {RandomElement(Bags(blocks[par].w))} :
+            /\ blocks[par].num < MaxNum
             /\ Pack(NewId, par, p, now, txs, cord)
             /\ Sane(blocks'[NewId].w)
             /\ hist' = Append(hist, [a |-> "pack", b |-> NewId, par |-> par, p |-> p, now |-> now, txs |-> txs,
